@@ -30,6 +30,7 @@ admission predicate of every level, restore included. Fourth round: C04.3 a
 server enters the tree (or changes parent) as a fresh object - a live server
 is never re-attached together with its instances.
 Fifth round: C04.1 the affinity of an instance is set by its constructor only, and the restart repair takes a duplicated instance off every server through Server.remove (shared with C10.3).
+Sixth round: C04.2 a bucket without a recorded level takes the first component of its name.
 Does NOT decide that the counters equal the true counts over histories.
 """
 
